@@ -327,25 +327,32 @@ fn main() {
         // triage aid: corr probe <program-file> <goal text> [slg|recursive]
         let text = std::fs::read_to_string(&args[2]).expect("program file");
         let which = args.get(4).cloned();
+        let budget = std::env::var("PROBE_BUDGET").ok().and_then(|b| b.parse::<u64>().ok());
         for (name, choice) in solver::solver_choices() {
             if which.as_deref().map_or(false, |w| w != name) {
                 continue;
             }
+            // the goals (separated by `;`) are posed to one shared instance in order, and each to a fresh one
             match solver::lower_program(&text, choice.clone()) {
                 Err(e) => println!("{}: lowering failed: {}", name, e),
-                Ok((_, program)) => match solver::lower_goal_text(&program, &args[3]) {
-                    Err(e) => println!("{}: goal failed: {}", name, e),
-                    Ok(g) => {
-                        let budget = std::env::var("PROBE_BUDGET").ok().and_then(|b| b.parse::<u64>().ok());
-                        chalk_recursive::verif::reset_work(budget);
-                        chalk_engine::verif_work::reset(budget);
-                        let r = solver::solve_fresh(&text, &solver::peel(&g), choice);
-                        let work = chalk_recursive::verif::work() + chalk_engine::verif_work::work();
-                        chalk_recursive::verif::reset_work(None);
-                        chalk_engine::verif_work::reset(None);
-                        println!("{}: {} {:?} work={}", name, solver::answer_kind(&r), r.as_ref().err(), work);
+                Ok((shared, program)) => {
+                    for gtext in args[3].split(';') {
+                        match solver::lower_goal_text(&program, gtext.trim()) {
+                            Err(e) => println!("{}: goal failed: {}", name, e),
+                            Ok(g) => {
+                                let peeled = solver::peel(&g);
+                                let rs = solver::solve_budget(&shared, &peeled, budget);
+                                chalk_recursive::verif::reset_work(budget);
+                                chalk_engine::verif_work::reset(budget);
+                                let r = solver::solve_fresh(&text, &peeled, choice.clone());
+                                let work = chalk_recursive::verif::work() + chalk_engine::verif_work::work();
+                                chalk_recursive::verif::reset_work(None);
+                                chalk_engine::verif_work::reset(None);
+                                println!("{}: {{ {} }} shared={} fresh={} {:?} fresh-work={}", name, gtext.trim(), solver::answer_kind(&rs), solver::answer_kind(&r), r.as_ref().err(), work);
+                            }
+                        }
                     }
-                },
+                }
             }
         }
         return;
